@@ -88,6 +88,7 @@ class Ctx:
         self.explanation = ""
         self.t0 = time.time()
         self.extra = {}
+        self.analysis_errors = []
 
     def rule(self, rule_id, description, min_instances=0) -> Rule:
         return Rule(self, rule_id, description, min_instances)
@@ -199,7 +200,12 @@ def finish(ctx: Ctx, cmd: str) -> int:
         print(
             f"  rule {s.rule}: instances={s.instances} (min {s.min_instances}) obligations={s.obligations} discharged={s.discharged} -- {s.description}"
         )
-    if vacuous:
+    if ctx.analysis_errors:
+        for e in ctx.analysis_errors:
+            print(f"ANALYSIS-ERROR property={ctx.prop} {e}")
+        if not unknown:
+            return 2
+    if vacuous and not (unknown and ctx.analysis_errors):
         for s in vacuous:
             print(
                 f"ANALYSIS-ERROR property={ctx.prop} rule {s.rule} enumerated {s.instances} instances, fewer than the {s.min_instances} confirmed by hand: the rule no longer sees the code it is about"
